@@ -145,7 +145,7 @@ type procOut struct {
 }
 
 func runProc(bin string, argv []string, stdin []byte, dir string) procOut {
-	ctx, cancel := context.WithTimeout(context.Background(), 20*time.Second)
+	ctx, cancel := context.WithTimeout(context.Background(), 120*time.Second)
 	defer cancel()
 	cmd := exec.CommandContext(ctx, bin, argv...)
 	cmd.Dir = dir
